@@ -378,6 +378,41 @@ def rule_optused(P):
 # ----------------------------------------------------------------------
 # R-SELECTOUT (C19): a statement prints what the renderer of the current format prints for the API result
 
+MUTATING = ('pop', 'popitem', 'clear', 'update', 'setdefault', '__setitem__', '__delitem__')
+
+
+def _mutates(e, target):
+    """Is the event a change of the object `target` stands for (a mutating method call on it, an item store or delete)?"""
+    if e[0] == 'call' and isinstance(e[1], str) and e[1].rsplit('.', 1)[-1] in MUTATING and e[1].rsplit('.', 1)[0] == show(target):
+        return True
+    if e[0] in ('store', 'delete') and isinstance(e[1], T) and e[1].op == 'item' and e[1].args[0] == target:
+        return True
+    if e[0] == 'mutate' and len(e) > 1 and e[1] == target:
+        return True
+    return False
+
+
+def _todict_alias(P):
+    """Settings.todict on terms: -> the term it returns when that is the object's own attribute dictionary (vars(self) / self.__dict__),
+    None when it is a new mapping (asdict, dict(...), a display or comprehension, .copy())."""
+    st = P.module(SH).classes.get('Settings')
+    td = st.methods.get('todict') if st else None
+    if td is None:
+        raise AnalysisError('anchor vanished: Settings.todict')
+    S_ = Sym('SETTINGS')
+    alias = None
+    for p in Engine(P, max_depth=0).paths(td, {'self': S_}):
+        v = p.value
+        if v in (T('call', ('vars', (S_,), ())), T('attr', (S_, '__dict__'))):
+            alias = v
+        elif isinstance(v, SList) or (isinstance(v, T) and v.op == 'call' and str(v.args[0]).split('.')[-1] in
+                                     ('asdict', 'dict', 'copy', 'deepcopy', 'OrderedDict')):
+            continue
+        elif p.outcome == 'return':
+            raise AnalysisError(f'{td.fq}: returns `{show(v)[:60]}`: neither a new mapping nor the attribute dictionary')
+    return alias
+
+
 def rule_selectout(P):
     """BQLShell.on_Select on terms: the result of context.execute (numberified iff the setting is on, with the ledger's display
     context) goes, once, to the renderer FORMATS[settings.format] together with the output file, the display context and *all*
@@ -397,6 +432,8 @@ def rule_selectout(P):
     NDESC, NROWS = Sym('NUMBERIFIED_DESCRIPTION'), Sym('NUMBERIFIED_ROWS')
     SETTINGS_ = T('attr', (SELF, 'settings'))
     DCTX = T('item', (T('attr', (T('attr', (SELF, 'context')), 'options')), 'dcontext'))
+    TODICT = T('call', (show(T('attr', (SETTINGS_, 'todict'))), (), ()))
+    live_settings = _todict_alias(P)
     for num, empty in ((True, False), (False, False), (True, True), (False, True)):
         nargs = []
 
@@ -479,6 +516,12 @@ def rule_selectout(P):
             elif kw.get('dcontext') != DCTX:
                 good = False
                 res.fail(f.fq, 'selectout:dcontext', f'{label}: the renderer must receive the display context of the ledger', loc(f))
+            elif live_settings and [e for e in p.events if _mutates(e, TODICT)]:
+                good = False
+                m_ = [e for e in p.events if _mutates(e, TODICT)][0]
+                res.fail(f.fq, 'selectout:settings-mutated', f'{label}: Settings.todict() hands out `{show(live_settings)}`, the live attribute '
+                         f'dictionary of the settings object, and on_Select changes it (`{str(m_[1])[:60]}`): running a statement alters the '
+                         f'settings the next statement (and `.set`) sees', loc(f))
             elif kw.get('**') != T('call', (show(T('attr', (SETTINGS_, 'todict'))), (), ())):
                 good = False
                 res.fail(f.fq, 'selectout:settings', f'{label}: the renderer must receive all current settings (**self.settings.todict()); '
